@@ -21,19 +21,20 @@
 (* process and any access by another one.  SoloEqual is stated on the recorded *)
 (* executions of the real code (C14Trace).                                     *)
 (***************************************************************************)
-EXTENDS Integers, Sequences, FiniteSets, TLC
+EXTENDS Integers, Sequences, FiniteSets, TLC, Json
 
 CONSTANTS N, MaxSteps, Accesses
 
-VARIABLES seen, steps
-vars == <<seen, steps>>
+VARIABLES seen, steps, sched
+vars == <<seen, steps, sched>>
 
 Procs == 1..N
-Init == seen = {} /\ steps = 0
+Init == seen = {} /\ steps = 0 /\ sched = <<>>
 Touch(p) == \E a \in Accesses : seen' = seen \cup {<<p, a.loc, a.mode>>}
+\* sched: which process made each step (history variable): the interleavings the gated harness replays
 Next == /\ steps < MaxSteps
         /\ steps' = steps + 1
-        /\ \E p \in Procs : Touch(p)
+        /\ \E p \in Procs : (IF Accesses = {} THEN seen' = seen ELSE Touch(p)) /\ sched' = Append(sched, p)
 Idle == steps = MaxSteps /\ UNCHANGED vars
 Spec == Init /\ [][Next \/ Idle]_vars
 
@@ -41,4 +42,7 @@ Plain(m) == m \in {"w", "addr"}
 NoConflict == \A x \in seen, y \in seen : (x[1] # y[1] /\ x[2] = y[2]) => ~Plain(x[3]) /\ ~Plain(y[3])
 \* the same statement on the table itself (what NoConflict amounts to once two processes have run every function)
 Suspects == {a \in Accesses : Plain(a.mode)}
+\* every complete interleaving is printed once (VIEW = sched in the export configuration)
+ExportSched == steps = MaxSteps => PrintT(ToJson(sched))
+SchedView == sched
 =============================================================================
